@@ -822,6 +822,35 @@ func c16Run(e *core.Env) {
 	e.R.Extra["max_depth"] = maxDepth
 	e.R.Extra["frontier_left"] = len(frontier)
 	_ = sort.Strings
+	// argument tables of the integer-argument constructors (not reachable as BFS steps with more than a
+	// few argument pairs): Binomial(n, k) for every 0 <= n <= 140, -1 <= k <= n+1 (results cross 2^64 at
+	// n = 67 and 2^128 at n = 131) and MulRange(a, b) for every -6 <= a, b <= 40, on an inline and on a
+	// heap-backed receiver, as one-step paths (replayable like any other path)
+	tn := int64(0)
+	table := func(st c16Step) {
+		tn++
+		if !e.Mine(tn) {
+			return
+		}
+		for _, pre := range [][]c16Step{nil, {{Op: "SetMathBigInt", N: 1}, {Op: "Lsh", Args: []c16Arg{{Idx: -1}}, N: 200}}} {
+			full := append(append([]c16Step{}, pre...), st)
+			e.Trans(1)
+			e.Outcome("table/"+st.Op, false)
+			if _, msg := c16Build(full); msg != "" {
+				e.Fail(st.Op, "c16", c16Case{full}, pathString(full)+": "+msg)
+			}
+		}
+	}
+	for n := int64(0); n <= 140; n++ {
+		for k := int64(-1); k <= n+1; k++ {
+			table(c16Step{Op: "Binomial", N: n, M: k})
+		}
+	}
+	for a := int64(-6); a <= 40; a++ {
+		for b := int64(-6); b <= 40; b++ {
+			table(c16Step{Op: "MulRange", N: a, M: b})
+		}
+	}
 }
 
 func c16Replay(kind string, raw json.RawMessage) string {
@@ -843,7 +872,7 @@ func init() {
 	core.Register(&core.Prop{
 		ID:    "C16",
 		Title: "BigInt behaves exactly like math/big.Int",
-		Rule:  "explicit-state BFS: a state is a receiver (value, representation class inline+/inline-/heap-small/heap, slack) reached by a method sequence; every transition applies one BigInt method with every argument tuple and alias pattern of the alphabet to the receiver and the same call to a mirrored *big.Int graph; after every transition all read-only observers are compared, arguments must be unchanged and representation invariants hold; states are deduplicated by canonical key (per worker shard)",
+		Rule:  "explicit-state BFS: a state is a receiver (value, representation class inline+/inline-/heap-small/heap, slack) reached by a method sequence; every transition applies one BigInt method with every argument tuple and alias pattern of the alphabet to the receiver and the same call to a mirrored *big.Int graph; after every transition all read-only observers are compared, arguments must be unchanged and representation invariants hold; states are deduplicated by canonical key (per worker shard); plus the complete argument tables Binomial(n,k), 0<=n<=140, -1<=k<=n+1 and MulRange(a,b), -6<=a,b<=40 on an inline and a heap-backed receiver",
 		Bounds: func(tier string) string {
 			if tier == "thorough" {
 				return fmt.Sprintf("alphabet of %d boundary values (0, +-1..10, 2^31..2^32+1, 2^63-1..2^64+1, 2^127..2^128+1, 10^19, 10^38, 10^39, 2^200(+1)), inline and heap-backed; depth 3: level 0 from every alphabet state with the 14-value argument set (x2 representations, + receiver aliasing), levels 1 and 2 from every new state with the 5-value set (the run is capped by the soft deadline and reports how far it got); 17 binary + 5 unary methods, shifts {0,1,63,64,65,127,128,129,200}, setters, encoders", len(c16Alphabet))
